@@ -98,6 +98,60 @@ fn large_window<T: Scalar>(spec: &Spec, k: usize, sdepth: usize, st: &mut Stats,
     }
 }
 
+/// f64: at every step of every structured phase history (a plateau that slides out under a ramp,
+/// ...), the output equals that of a fresh instance fed only the last K values.
+fn phase_histories(spec: &Spec, k: usize, phases: usize, st: &mut Stats, sink: &Sink) {
+    st.configs += 1;
+    for hist in super::common::phase_drivers(spec.n.max(1), phases) {
+        let r = crate::explore::guard(|| {
+            let mut a = build::<f64>(spec);
+            for i in 0..hist.len() {
+                a.update(hist[i]);
+                if i + 1 < k {
+                    continue;
+                }
+                let last_k = &hist[i + 1 - k..=i];
+                if holding::<f64>(spec, last_k) {
+                    continue;
+                }
+                let mut f = build::<f64>(spec);
+                for x in last_k {
+                    f.update(*x);
+                }
+                let (g, w) = (a.last(), f.last());
+                let scale = 1.0 + max_abs(last_k).max(w.map(|x| x.abs()).unwrap_or(0.0));
+                let value_like = matches!(spec.kind, Kind::Sma | Kind::Cumulative | Kind::Alma | Kind::Pfe);
+                // running sums keep residue proportional to the largest value they have seen
+                let tol = if value_like { 1e-9 * (1.0 + max_abs(&hist[..=i])) } else { 1e-9 * scale };
+                let ok = match (g, w) {
+                    (None, None) => true,
+                    (Some(x), Some(y)) => x.is_finite() && (x - y).abs() <= tol,
+                    _ => false,
+                };
+                if !ok {
+                    return Some((i, g, w));
+                }
+            }
+            None
+        });
+        st.transitions += hist.len() as u64 * (k as u64 + 1);
+        st.states += hist.len() as u64;
+        st.oracle_evals += hist.len() as u64;
+        st.traces += 1;
+        match r {
+            Ok(Some((i, g, w))) => {
+                sink.push(Violation::new("C03", spec, "prefix-independence", "f64", &hist[..=i], format!("after this history the view reports {:?} but a fresh instance fed only its last K={} values reports {:?}", g, k, w)));
+                return;
+            }
+            Ok(None) => {}
+            Err(m) => {
+                sink.push(Violation::new("C03", spec, "panicked", "f64", &hist, m));
+                return;
+            }
+        }
+    }
+}
+
 /// f64: a prefix of huge magnitude (1e15..1e17) before a suffix of ordinary values. A value-like
 /// output may keep rounding residue proportional to the largest magnitude seen (the running sums of
 /// Sma / Alma / Cumulative do); a bounded indicator or ratio has no such excuse: its scale does not
@@ -395,6 +449,17 @@ pub fn run(ctx: &Ctx) -> CheckOutput {
             spike_prefixes(&spec, k, &mut st, &sink);
             JobOut { stats: st, viols: sink.take(), samples: vec![json!({"explorer":"prefix x suffix","scalar":"f64","view":spec.name(),"K":k,"prefixes":"spikes of 1e15..1e17"})] }
         }));
+    }
+    for n in if quick { vec![3usize, 8, 9, 13] } else { vec![2, 3, 5, 8, 9, 11, 13, 16, 20] } {
+        for (spec, k) in configs_for(n) {
+            let phases = if quick { 3 } else { 4 };
+            jobs.push(Box::new(move || {
+                let mut st = Stats::default();
+                let sink = Sink::new();
+                phase_histories(&spec, k, phases, &mut st, &sink);
+                JobOut { stats: st, viols: sink.take(), samples: vec![json!({"explorer":"LONG","scalar":"f64","view":spec.name(),"K":k,"driver":format!("every sequence of <= {} phases from a menu of 8; fresh instance on the last K values at every step", phases)})] }
+            }));
+        }
     }
     // larger windows: prefix . base . suffix against a fresh instance fed the last K values
     for n in if quick { vec![7usize, 9, 12] } else { vec![7, 8, 9, 11, 12, 16] } {
